@@ -330,8 +330,24 @@ def pool(contract, seed=0, limit=4000):
             yield Element(propertyNames=String(maxLength=3), additionalProperties=Array(inner), patternProperties={"^x": inner},
                           dependencies={"a": inner, "b": ["a"]}, properties={"a": Property(inner)})
             yield AnyOf(inner, Not(inner))
+            # one position each, so that a dropped path has a witness of its own
+            yield Element(properties={"p": Property(Array(String())), "q": Property(Element(minimum=1), required=True)})
+            yield Element(patternProperties={"^x": Array(String())})
+            yield Element(dependencies={"a": Element(required=["b"]), "b": ["a"]})
+            yield Object.inline("PoolModel", properties={"p": Property(Array(String()))})
         if key.endswith("get_children"):
             yield from cap((fn, (e, s)) for e in elems() for s in (None, set()))
+        elif contract.inst in ("*", "*.element"):
+            # receivers of the `*` segment: the dict-valued keyword attributes themselves (and NotPassed)
+            from statham.schema.constants import NotPassed
+            def recvs():
+                yield NotPassed()
+                for e in elems():
+                    for a in (("patternProperties", "dependencies") if contract.inst == "*" else ("_properties",)):
+                        v = getattr(e, a, None)
+                        if v is not None:
+                            yield v
+            yield from cap((fn, (r, contract.inst)) for r in recvs())
         else:
             yield from cap((fn, (e, contract.inst)) for e in elems())
         return
